@@ -282,6 +282,23 @@ def compare(run_dir):
     return mism, n
 
 
+def compare_pairs(run_dir):
+    """C20: the harness writes the same input twice, first for the grammar.peg table then for the grammar.go table;
+    the two model outputs must be equal"""
+    res, n = run_model(run_dir)
+    desc = open(os.path.join(run_dir, "desc.jsonl"), "rb").read().split(b"\n")
+    mism = []
+    for i in range(0, len(res) - 1, 2):
+        a = res[i].decode("utf-8", "replace"); b = res[i + 1].decode("utf-8", "replace")
+        if a != b:
+            try:
+                d = json.loads(desc[i])
+            except Exception:
+                d = None
+            mism.append({"line": i, "impl": "engine on the grammar.go table: " + b[:500], "model": "engine on the grammar.peg table: " + a[:500], "case": d})
+    return mism, n
+
+
 def known_findings():
     """KNOWN_FINDINGS: lines `finding: property=<id> key=<key> <what fails>` are suppressed (printed as KNOWN-FINDING);
     `fixed:` lines suppress nothing."""
